@@ -2,19 +2,137 @@
    Only statements; each closed by `exact` of a lemma proved in Proofs/ClientConn*.v (or by vm_compute
    for witnesses).  Model/ClientConn.v is an LTS over the atomic stretches of the client code
    (connect, set_response_params, head read, body read, release/close, one token of a data_received
-   call, connection_lost); `run cf init tr` is the state after the event list `tr`; s_log lists what
-   callers were given together with the ghost tag of the exchange that owned the connection when
-   those bytes arrived. *)
-From AV Require Import Lib.Base Generated.ClientConnGen Model.ClientConn Proofs.ClientConnWitness.
+   call, connection_lost); `run cf init tr` is the state after the event list `tr`, for EVERY event
+   list (any number of connections, exchanges, reads, any interleaving the atomicity of data_received
+   allows).  s_log lists what callers were given, each item with the ghost tag of the exchange that
+   held the connection when those bytes arrived (TIdle: nobody).  `faithful` is the code as it is,
+   `repaired` a variant whose _get also refuses a pooled connection with leftovers.  The decision
+   functions (should_close, _release, _get, connection_key ...) come from Generated/ClientConnGen.v. *)
+From AV Require Import Lib.Base Generated.ClientConnGen Model.ClientConn
+  Proofs.ClientConnBase Proofs.ClientConnStruct Proofs.ClientConnTagsDef Proofs.ClientConnTagsB
+  Proofs.ClientConnReuse Proofs.ClientConnWitness.
 Open Scope N_scope.
+
+(* ---- no mixing ------------------------------------------------------------------------------ *)
 
 (* Full statement `forall tr s, run faithful init tr = Some s -> no_mix s`: REFUTED by the faithful model.
    W1 — a complete response that arrives while the connection idles in the pool is parsed by the old
-   parser into the protocol's queue; _get checks only is_connected() and age; the next request on
-   that connection is answered with it.  Replayed on the implementation:
-   corpus/C06/idle_unsolicited.json (known finding C06-stale-response-from-pool). *)
+   parser into the protocol's queue; BaseConnector._get checks only is_connected() and age; the next
+   request on that connection is answered with it (and every later response shifts by one).  Replayed
+   on the implementation: corpus/C06/idle_unsolicited.json (known finding C06-stale-response-from-pool). *)
 Theorem C06_no_mix_refuted_idle : exists s,
   run faithful init tr_idle_unsolicited = Some s /\
   exists d, In d (s_log s) /\ d_tag d <> TFlight (d_e d).
 Proof. exact w_idle_unsolicited. Qed.
 Print Assumptions C06_no_mix_refuted_idle.
+
+(* W2 — same defect, other timing: the surplus response follows the end of the body in the same read.
+   The caller already holds the response, so the end-of-body callback releases the connection to the
+   pool in the middle of that data_received call; the rest of the read is queued on a pooled
+   connection.  Replayed: corpus/C06/same_read_surplus.json (same known finding). *)
+Theorem C06_no_mix_refuted_same_read : exists s,
+  run faithful init tr_same_read_surplus = Some s /\
+  exists d, In d (s_log s) /\ d_tag d <> TFlight (d_e d).
+Proof. exact w_same_read_surplus. Qed.
+Print Assumptions C06_no_mix_refuted_same_read.
+
+(* What holds instead, for ALL traces: if no token was ever handled on a connection that no exchange
+   was holding (s_idle_parsed = false: the peer sends nothing while the connection idles in the pool and
+   nothing after the end of a response in the read that completes it), then everything every caller
+   was given — heads and body bytes — arrived while that caller's own exchange held the connection.
+   Surplus that is parsed *before* the release (same read as the head, earlier reads), early bytes on a
+   fresh connection, truncated bodies, peer close at any point, garbage, cancellations and upgrades are
+   all inside the quantifier.  Missing for the full statement: a check of protocol.should_close (and
+   of the parser's line buffer) in BaseConnector._get — see C06_repaired_refuses_stale. *)
+Theorem C06_no_mix_partial : forall cf tr s,
+  run cf init tr = Some s -> s_idle_parsed s = false ->
+  forall d, In d (s_log s) -> d_tag d = TFlight (d_e d).
+Proof. exact no_mix_quiet. Qed.
+Print Assumptions C06_no_mix_partial.
+
+(* non-vacuity: a session with three requests, two of them sharing one connection and a third one to
+   another port, satisfies the hypothesis and delivers five items *)
+Example C06_no_mix_partial_example : exists s,
+  run faithful init tr_good = Some s /\
+  s_idle_parsed s = false /\ s_tail_surplus s = false /\ s_nconn s = 2 /\
+  length (s_log s) = 5%nat /\ forallb well_taggedb (s_log s) = true /\
+  c_phase (s_conn s 0) = PIdle /\ c_phase (s_conn s 1) = PClosed.
+Proof. exact w_good. Qed.
+Print Assumptions C06_no_mix_partial_example.
+
+(* the repaired _get closes the stale connection of W1 and opens a new one *)
+Example C06_repaired_refuses_stale : exists s,
+  run repaired init (tr_exchange1 ++ [ESegBegin 0; ETok (KHead 2 0 false false); ESegEnd; EConnect 2 rqA]) = Some s /\
+  s_nconn s = 2 /\ c_phase (s_conn s 0) = PClosed.
+Proof. exact w_idle_unsolicited_repaired. Qed.
+Print Assumptions C06_repaired_refuses_stale.
+
+(* ---- which connections are reused ----------------------------------------------------------- *)
+
+(* Full, for ALL traces: a connection handed to a request by reuse was created for a request with the
+   same seven key properties — host, port, TLS scheme, ssl setting, proxy, proxy-headers hash,
+   server_hostname (key_of_req is ClientRequest.connection_key as translated from the source). *)
+Theorem C06_same_key : forall cf tr s e r s',
+  run cf init tr = Some s -> step cf s (EConnect e r) = Some s' ->
+  x_conn (s_x s' e) < s_nconn s ->
+  c_rq (s_conn s (x_conn (s_x s' e))) = r.
+Proof. exact same_key. Qed.
+Print Assumptions C06_same_key.
+
+Example C06_same_key_example : exists s s',
+  run faithful init tr_exchange1 = Some s /\ step faithful s (EConnect 2 rqA) = Some s' /\
+  x_conn (s_x s' 2) = 0 /\ s_nconn s = 1 /\
+  (exists s'', step faithful s (EConnect 2 rqB) = Some s'' /\ x_conn (s_x s'' 2) = 1).
+Proof.
+  eexists. eexists. split; [vm_compute; reflexivity|]. split; [vm_compute; reflexivity|].
+  split; [vm_compute; reflexivity|]. split; [vm_compute; reflexivity|].
+  eexists. split; vm_compute; reflexivity.
+Qed.
+Print Assumptions C06_same_key_example.
+
+(* Full, for ALL traces: a reused connection was sitting in the pool — put there by _release, hence not
+   closed by our side: every close()/cancel/timeout/failed read and every release with should_close set
+   ends in PClosed, which is never pooled — and is still connected (not closed by the peer, no parse
+   error closed its transport). *)
+Theorem C06_reuse_only_idle_connected : forall cf tr s e r s',
+  run cf init tr = Some s -> step cf s (EConnect e r) = Some s' ->
+  x_conn (s_x s' e) < s_nconn s ->
+  In (x_conn (s_x s' e)) (s_pool s) /\
+  c_phase (s_conn s (x_conn (s_x s' e))) = PIdle /\ c_conn (s_conn s (x_conn (s_x s' e))) = true.
+Proof. exact reuse_only_idle_connected. Qed.
+Print Assumptions C06_reuse_only_idle_connected.
+
+(* Full, for EVERY state: _release pools a connection only if it was not told to close, the connector
+   does not force-close, and the protocol reports: no close announced, last payload complete, not
+   upgraded, no exception, response queue empty, raw tail empty (the should_close disjunction as
+   translated from the source — dropping a disjunct there breaks this proof). *)
+Theorem C06_release_pools_only_clean : forall cf s c arg e,
+  c_phase (s_conn s c) = PFlight e ->
+  c_phase (s_conn (release_conn cf s c arg) c) = PIdle ->
+  arg = false /\ cfg_force cf = false /\
+  c_sc (s_conn s c) = false /\ pay_open s (s_conn s c) = false /\ c_upg (s_conn s c) = false /\
+  c_exc (s_conn s c) = 0 /\ c_buf (s_conn s c) = [] /\ c_htail (s_conn s c) = [].
+Proof. exact release_pools_only_clean. Qed.
+Print Assumptions C06_release_pools_only_clean.
+
+(* Partial, for ALL traces: under the same quietness hypothesis as C06_no_mix_partial every pooled
+   connection stays clean — empty response queue, empty raw tail, parser at a message boundary — so a
+   later request cannot be answered from leftovers. *)
+Theorem C06_pooled_clean_partial : forall cf tr s c,
+  run cf init tr = Some s -> s_idle_parsed s = false -> In c (s_pool s) ->
+  c_buf (s_conn s c) = [] /\ c_htail (s_conn s c) = [] /\ c_pst (s_conn s c) = PSHead.
+Proof. exact quiet_pool_clean. Qed.
+Print Assumptions C06_pooled_clean_partial.
+
+(* The property's own clause "a connection that received bytes beyond the end of a response is not
+   reused" (ghost c_dirty, defined without reference to the implementation's flags): REFUTED even in a
+   quiet run.  W3 — an incomplete line after a complete response stays in the parser's line buffer,
+   which should_close does not look at; the connection is pooled and handed out again (the bytes are
+   dropped with the old parser, not delivered).  Replayed: corpus/C06/partial_surplus_reused.json
+   (known finding C06-partial-surplus-reused).  A general `dirty => never reused` theorem for quiet
+   runs without parser leftovers is not proved (it needs an invariant tying c_prog to the queue). *)
+Theorem C06_not_reused_if_dirty_refuted : exists s,
+  run faithful init tr_partial_surplus = Some s /\
+  c_phase (s_conn s 0) = PFlight 2 /\ c_dirty (s_conn s 0) = true /\ s_idle_parsed s = false.
+Proof. exact w_partial_surplus. Qed.
+Print Assumptions C06_not_reused_if_dirty_refuted.
